@@ -307,8 +307,12 @@ class NetSim(simncp.SimNcp):
         self.stack_up = False
         return {}
 
+    refuse_partner = None  # bytes: link keys for this partner are refused by the NCP (e.g. its own / an invalid address)
+
     def cmd_addOrUpdateKeyTableEntry(self, address, linkKey, keyData):
         a = bytes(address.serialize())
+        if a == self.refuse_partner:
+            return {"status": 0xB3}  # EMBER_KEY_TABLE_INVALID_ADDRESS
         for i, e in enumerate(self.key_table):
             if e is not None and e[0] == a:
                 self.key_table[i] = (a, bytes(keyData.serialize()))
@@ -336,6 +340,8 @@ class NetSim(simncp.SimNcp):
     def cmd_importLinkKey(self, index, address, key):
         if index >= len(self.key_table):
             return {"status": "INDEX_OUT_OF_RANGE"}
+        if bytes(address.serialize()) == self.refuse_partner:
+            return {"status": 0x21}  # SL_STATUS_INVALID_PARAMETER
         self.key_table[index] = (bytes(address.serialize()), bytes(key.serialize()))
         return {"status": "OK"}
 
